@@ -233,6 +233,8 @@ class STensor:
     def _bin(self, o, f, rev=False):
         if isinstance(o, dict):
             return NotImplemented
+        if not isinstance(o, (STensor, Variable, tm.T, tm.C, int, float, complex, list, tuple, real_np.ndarray, real_np.generic)):
+            return NotImplemented  # let the other operand's reflected method handle it (e.g. NumberError.__rpow__)
         b = _arr(o)
         x, y = (b, self.a) if rev else (self.a, b)
         return _wrap(f(x, y))
@@ -271,6 +273,8 @@ class STensor:
         return abs_(self)
 
     def __pow__(self, o):
+        if not isinstance(o, (STensor, Variable, tm.T, tm.C, int, float, complex, list, tuple, real_np.ndarray, real_np.generic)):
+            return NotImplemented
         return pow_(self, o)
 
     def __rpow__(self, o):
@@ -1172,6 +1176,11 @@ def build():
     cfg.list_physical_devices = lambda *a: []
     tf.config = cfg
 
+    ag = _Mod("tensorflow.autograph")
+    age = _Mod("tensorflow.autograph.experimental")
+    age.do_not_convert = lambda f=None, **kw: (f if f is not None else (lambda g: g))
+    ag.experimental = age
+    tf.autograph = ag
     compat = _Mod("tensorflow.compat")
     tf.compat = compat
     dbg = _Mod("tensorflow.debugging")
@@ -1222,3 +1231,31 @@ def elems(x):
         else:
             out.append(tm._l(e))
     return out
+
+
+class NpProxy:
+    """stand-in for the module-global `np` of numpy-based repository modules in the shadow process:
+    array constructors produce object arrays (so symbolic terms can be stored); everything else is numpy."""
+
+    def __getattr__(self, k):
+        return getattr(real_np, k)
+
+    @staticmethod
+    def zeros(shape, dtype=None, **kw):
+        a = real_np.empty(shape if not isinstance(shape, list) else tuple(shape), dtype=object)
+        a.fill(tm.ZERO)
+        return a
+
+    @staticmethod
+    def ones(shape, dtype=None, **kw):
+        a = real_np.empty(shape if not isinstance(shape, list) else tuple(shape), dtype=object)
+        a.fill(tm.ONE)
+        return a
+
+    @staticmethod
+    def eye(n, m=None, **kw):
+        a = real_np.empty((n, m or n), dtype=object)
+        for i in range(n):
+            for j in range(m or n):
+                a[i, j] = tm.ONE if i == j else tm.ZERO
+        return a
